@@ -32,6 +32,17 @@ GAPS_Q = [g for g in GAPS if g[0] in ('none', 'SP', 'LF', 'COMMENT',
 TAILS_Q = [t for t in TAILS if t[0] in ('re-flags', 'div', 'diveq',
                                         're-eq-member')]
 
+# every ES5 WhiteSpace code point (7.2: TAB VT FF SP NBSP BOM and category
+# Zs) as the gap, alone and next to an ordinary blank.  They carry the gap
+# class of the ordinary blank ('SP'): the decision at the slash may not
+# depend on WHICH white space precedes it, so anything they do differently
+# from a blank is a signature no listed finding has
+WS_GAPS = [('SP', c) for c in (
+    '\t\x0b\x0c\xa0\ufeff\u1680\u2000\u2001\u2002\u2003\u2004\u2005'
+    '\u2006\u2007\u2008\u2009\u200a\u202f\u205f\u3000')] + [
+    ('SP', '\xa0 '), ('SP', ' \xa0'), ('SP', '\t\x0c'),
+    ('COMMENT-SP', '/*c*/\xa0'), ('LF', '\n\u3000')]
+
 A_DIV = ['a', '1', ')', ']', '}', '(', '{', '[', ';', '+', '++', '=', ',',
          'if', 'while', 'for', 'with', 'function', 'return', 'typeof', '.',
          'in', 'get', trie.LF, 'else', 'do', ':', 'this', "'s'"]
@@ -280,6 +291,21 @@ def run(tier, rep):
                         nctx += 1
                         items.append((text, len(base + g), gn, tn))
     rep.space('named-contexts', contexts=len(CONTEXTS), texts=nctx)
+    nws = 0
+    for c in CONTEXTS:
+        c = c.replace('\\n', '\n')
+        for wrap in (('%s',) if tier == 'quick' else
+                     ('%s', 'y ; %s', '{ %s', 'if ( q ) %s')):
+            base = wrap % c
+            for gn, g in WS_GAPS:
+                for tn, t in (TAILS_Q if tier == 'quick' else TAILS):
+                    text = base + g + t
+                    if text in seen:
+                        continue
+                    seen.add(text)
+                    nws += 1
+                    items.append((text, len(base + g), gn, tn))
+    rep.space('named-contexts-x-white-space', gaps=len(WS_GAPS), texts=nws)
     # S2 programs with a regex / a division planted after every lexeme
     progs = G.programs(1) if tier == 'quick' else G.programs(2)[::3]
     # programs on which the two parsers disagree without any planted slash
